@@ -33,7 +33,7 @@ ASSUMPTIONS = ["expression kinds use int domains; matrix kinds also str domains"
                "UnaryFunctionRelation is built from python callables (what every caller in the repository does)"]
 HASHSEEDS = [0, 1, 2, 3, 7, 11]
 BUDGET = {"quick": {"workers": 6, "examples": 1500, "seconds": 40},
-          "thorough": {"workers": 12, "examples": 6000, "seconds": 480}}
+          "thorough": {"workers": 12, "examples": 18000, "seconds": 480}}
 
 KINDS = ["matrix", "expr_str", "nary_expr", "nary_expr_kw", "pyfunc", "partial", "unary_func",
          "unary_bool", "zeroary", "neutral", "conditional", "external"]
